@@ -91,6 +91,40 @@ def tree_engine(mode, tags, kinds, nq, nt):
             "classify": tree_cls(tags, kinds), "nontrivial": tree_nontrivial, "resets": ["scenario"]}
 
 
+CTRL_ACTIONS = ("scenario", "srv", "cstart", "advance", "inject", "watch-errors", "watch-block", "burst-begin", "burst-end",
+                "settle", "closeroot", "cancel", "end")
+
+
+def ctrl_cls(tags):
+    def cls(inp, ans):
+        m = re.match(r"(reject|diff) (\S+)", ans)
+        if m and m.group(1) == "reject":
+            return "reject" if set(m.group(2).split("/")) & set(tags) else "ignore"
+        return "diff"
+    return cls
+
+
+def ctrl_nontrivial(line):
+    return line.startswith("(cobs") and ("(create (obj" in line or "(update (obj" in line or "(delete (obj" in line or "(list " in line or "(watch " in line)
+
+
+def ctrl_engine(mode, tags, nq, nt):
+    args = (["-mode", mode] if mode else [])
+    return {"go": "ctrl", "bin": "kconc", "driver": "ctrl", "actions": CTRL_ACTIONS,
+            "args_quick": args + ["-n", str(nq)], "args_thorough": args + ["-n", str(nt)],
+            "classify": ctrl_cls(tags), "nontrivial": ctrl_nontrivial, "resets": ["scenario"]}
+
+
+CTRL_TB = [
+    "controller model KcacheModel/Ctrl.lean (positions of server changes in the watch pipeline, list snapshots at arbitrary history "
+    "indices) written by hand; tied to controller.go, watcher.go, watch_session.go, lister.go by the ctrl engine: the real controller "
+    "runs in a testing/synctest bubble against a fake API server implementing the list/watch contract (watch from version v replays "
+    "every later change in order), with injected faults and virtual time; at every quiescent point the cache must be the accepted "
+    "server state at a history index that never goes backwards, the current one whenever a watch is connected or a list of the "
+    "current state just completed; Watch resource versions, list timing, readiness, Done/Error are checked as well",
+    "modelled, not verified: the API server contract, Go timers (virtual), boz/go-lifecycle, client-go watch.Interface",
+]
+
 TREE_TB = [
     "tree model KcacheModel/Sys.lean (built from the component models Cache, FSub, bounded queues) written by hand; tied to "
     "controller.go, publisher.go, subscription.go, subscription_filter.go, monitor.go by the tree engine: the real objects run in a "
@@ -220,5 +254,34 @@ PROPS = {
                 "Non-trivial: an observation that carried callbacks.",
         "trusted_base": TREE_TB,
         "assumptions": ["untyped monitors here; typed monitors are covered with C20"],
+    },
+    "C03": {
+        "engines": [ctrl_engine("", ("C03", "C02"), 600, 10000)],
+        "rule": "ctrl engine: random server histories over 4 objects x 4 label sets, controller-level filters from the 9-filter family, "
+                "refresh periods {10s, 1m, 1h, 10000h}, list latencies {0, 100ms, period/4}, resource-version steps 1-3, and fault sequences "
+                "{stream closed, close right after a burst, Watch() errors k times, Watch() blocks until cancelled, status / bookmark / "
+                "non-object frames}; time advanced past the retry delay / the refresh period; final settle + one further relist. "
+                "Non-trivial: an observation that carried events or list/watch calls.",
+        "trusted_base": CTRL_TB,
+        "assumptions": ["client List/Watch return once their context is cancelled", "server resource versions strictly increase",
+                        "no watch buffer overflows (bursts of at most 8 events)"],
+    },
+    "C04": {
+        "engines": [ctrl_engine("c04", ("C04", "C03"), 600, 10000)],
+        "rule": "ctrl engine mode c04: refresh period 10000h (only the watch can deliver); faults injected at random positions of the "
+                "history incl. close immediately after a burst with the watcher delayed by log-point perturbation; after the reconnect "
+                "delay the cache must equal the server state; every Watch() must resume from a version the controller has received. "
+                "Non-trivial: an observation that carried events or list/watch calls.",
+        "trusted_base": CTRL_TB,
+        "assumptions": ["as C03"],
+    },
+    "C14": {
+        "engines": [ctrl_engine("c14", ("C14",), 500, 8000), ctrl_engine("", ("C14",), 300, 4000)],
+        "rule": "ctrl engine mode c14: every failure kind {List error, nil, non-list object, *Status, list of non-objects} injected at "
+                "the k-th list, k = 1..4, amid the watch faults of C03, with a subscriber attached: Done, Error() class, Ready (iff k > 1) "
+                "and the subscriber's Done are checked; without an injected list failure the controller must keep running through every "
+                "watch failure; a deliberately closed controller must report no failure.",
+        "trusted_base": CTRL_TB,
+        "assumptions": ["as C03"],
     },
 }
